@@ -37,7 +37,7 @@ def _fmtnum(rng, x):
     if x == int(x) and abs(x) < 1e6 and r < 0.3: return '%d' % int(x)
     if r < 0.5: return repr(x)
     if r < 0.7: return '%.17e' % x
-    if r < 0.8 and x >= 0: return '+' + repr(x)
+    if r < 0.8 and x >= 0 and not repr(x).startswith('-'): return '+' + repr(x)          # not for -0.0 ('+-0.0' is not a number)
     if r < 0.92:
         # other spellings float() reads as the same number: no digit before the point (.25, -.5), none after it (5.), capital E
         t = repr(x)
